@@ -6,9 +6,11 @@
 set -u
 cd "$(dirname "$0")"
 VERIF="$(pwd)"
-# one self-test at a time: all runs share the driver build directory .build/selftest
+# one self-test at a time per slot: runs of a slot share the driver build directory
+# .build/selftest$SELFTEST_SLOT (tools/selftest_parallel.sh runs several slots side by side)
+SLOT="${SELFTEST_SLOT:-}"
 mkdir -p "$VERIF/.build"
-exec 9>"$VERIF/.build/selftest.lock"
+exec 9>"$VERIF/.build/selftest$SLOT.lock"
 flock 9
 SCR=/var/tmp/mcx-selftest.$$
 OUT="$SCR/out"
@@ -22,7 +24,7 @@ for meta in mutants/*/meta.json seeded/*/meta.json; do
   dir=$(dirname "$meta")
   name=$(basename "$dir")
   if [ $# -gt 0 ]; then
-    match=0; for pat in "$@"; do case "$dir" in *$pat*) match=1;; esac; done
+    match=0; for pat in "$@"; do case "$dir/" in *$pat*) match=1;; esac; done
     [ $match -eq 1 ] || continue
   fi
   props=$(python3 -c "import json,sys; m=json.load(open('$meta')); print(' '.join(m.get('detected_by', [m['property']])))")
@@ -33,7 +35,7 @@ for meta in mutants/*/meta.json seeded/*/meta.json; do
   fi
   detected=0
   for p in $props; do
-    MCX_REPO="$SCR/wt" MCX_BUILD_DIR="$VERIF/.build/selftest" MCX_HARNESS_BUILD_DIR="$VERIF/.build/harness" MCX_OUT_DIR="$OUT" \
+    MCX_REPO="$SCR/wt" MCX_BUILD_DIR="$VERIF/.build/selftest$SLOT" MCX_HARNESS_BUILD_DIR="$VERIF/.build/harness" MCX_OUT_DIR="$OUT" \
       ./check "$p" quick > "$SCR/run.log" 2>&1
     rc=$?
     if [ $rc -eq 2 ]; then echo "  (machinery error running $p on $dir)"; tail -3 "$SCR/run.log"; fi
@@ -46,5 +48,5 @@ for meta in mutants/*/meta.json seeded/*/meta.json; do
   if [ $detected -eq 1 ]; then pass=$((pass+1)); results+=("$dir:detected"); else fail=$((fail+1)); results+=("$dir:MISSED"); echo "MISSED   $dir (checks run: $props)"; fi
 done
 echo "selftest: $pass detected, $fail missed"
-printf '%s\n' "${results[@]}" > "$VERIF/.build/selftest-last.txt" 2>/dev/null
+printf '%s\n' "${results[@]}" > "$VERIF/.build/selftest$SLOT-last.txt" 2>/dev/null
 [ $fail -eq 0 ]
